@@ -430,6 +430,7 @@ pub fn canon_json(v: &serde_json::Value) -> String {
             format!("{{{}}}", keys.iter().map(|k| format!("{:?}:{}", k, canon_json(&m[*k]))).collect::<Vec<_>>().join(","))
         }
         serde_json::Value::Array(a) => format!("[{}]", a.iter().map(canon_json).collect::<Vec<_>>().join(",")),
+        serde_json::Value::Number(n) if n.is_f64() => format!("{:.11e}", n.as_f64().unwrap_or(f64::NAN)),
         other => other.to_string(),
     }
 }
